@@ -1,5 +1,6 @@
 import GroupbyVerif.Model.Ema
 import GroupbyVerif.Generated.Constants
+import GroupbyVerif.LoopBridge.Ema
 import Mathlib.Tactic.FieldSimp
 import Mathlib.Tactic.Ring
 import Mathlib.Tactic.Positivity
@@ -261,5 +262,64 @@ theorem guards_present :
 /-- non-vacuity / sanity: α = 1/2, two interleaved groups, an invalid row, a null key -/
 example : emaGrouped (1 / 2) [(0, some 1), (1, some 4), (-1, some 9), (0, none), (0, some 3)]
     = [some (some 1), some (some 4), none, some (some 1), some (some (13 / 5))] := by decide +kernel
+
+/-! ### the kernels of the current source, end to end
+
+`Generated.Loops.ema_grouped` / `ema_grouped_timed` are regenerated from `groupby_lib/emas.py` on every run (exact
+rational arithmetic, NaN as a separate cell value); `LoopBridge/Ema.lean` proves them equal to `emaGrouped` /
+`emaGroupedTimed`.  Composed with the closed forms above: -/
+
+/-- **the translated `_ema_grouped` returns the normalised exponentially weighted mean**: at a row with a non-null key
+whose value is valid (not NaN, not masked), the cell holds `Σ β^(rows elapsed)·x / Σ β^(rows elapsed)` over the valid
+observations of the same group up to that row, with `β = 1 - alpha` and one step per group row -/
+theorem source_ema_closed_form (k : Kind) (β : Rat) (hβ : 0 ≤ β) (codes : List Int) (vals : List FVal)
+    (msk : List Bool) (masked : Bool) (ng ml : Int) (hlen : codes.length = vals.length)
+    (i : Nat) (hi : i < codes.length) (hg : 0 ≤ codes.getD i 0) (v : Rat)
+    (hv : LoopBridge.obsOf (vals.getD i .nan) (masked && !(msk.getD i true)) = some v) :
+    let rows := LoopBridge.emaRows codes vals masked msk
+    let hist := groupVals (rows.take i) (codes.getD i 0)
+    (Generated.Loops.ema_grouped k codes.length (arrOf codes 0) vals.length (arrOf vals .nan) (.q (1 - β)) ng masked ml
+      (arrOf msk true)).1 (i : Int) = .q (emaS β (hist ++ [some v]) / emaW β (hist ++ [some v])) := by
+  intro rows hist
+  have h := (LoopBridge.ema_grouped_eq k β hβ codes vals msk masked ng ml hlen).2 i hi
+  have hrow : rows[i]? = some (codes.getD i 0, some v) := by
+    simp only [rows, LoopBridge.emaRows]
+    rw [List.getElem?_map, List.getElem?_range hi]
+    simp only [Option.map_some, hv]
+  have hspec := grouped_eq_single_group β rows i _ hrow hg
+  rw [h, LoopBridge.emaCell, hspec]
+  have := ema_closed_form β hist v
+  unfold run at this
+  simp only [run] at this ⊢
+  rw [this]
+
+/-- invalid rows repeat the group's previous output; null-key rows hold NaN: the cell is the model's output -/
+theorem source_ema_eq_model (k : Kind) (β : Rat) (hβ : 0 ≤ β) (codes : List Int) (vals : List FVal)
+    (msk : List Bool) (masked : Bool) (ng ml : Int) (hlen : codes.length = vals.length) (i : Nat) (hi : i < codes.length) :
+    (Generated.Loops.ema_grouped k codes.length (arrOf codes 0) vals.length (arrOf vals .nan) (.q (1 - β)) ng masked ml
+      (arrOf msk true)).1 (i : Int) =
+      LoopBridge.emaCell (emaGrouped β (LoopBridge.emaRows codes vals masked msk)) i :=
+  (LoopBridge.ema_grouped_eq k β hβ codes vals msk masked ng ml hlen).2 i hi
+
+/-- **the translated `_ema_grouped_timed`**: the cell of every row is the time-weighted model's output, for the decay
+`Δt ↦ exp(-ln 2 · Δt / halflife)` computed by the source (uninterpreted `expf`, `ln2`) -/
+theorem source_ema_timed_eq_model (k : Kind) (ln2 : FVal) (expf : FVal → FVal) (halflife : Int) (decay : Int → Rat)
+    (hdec : ∀ d : Int, expf (FVal.mul (FVal.neg ln2) (FVal.divII d halflife)) = .q (decay d))
+    (hdec0 : ∀ d : Int, 0 ≤ decay d)
+    (codes : List Int) (vals : List FVal) (times : List Int) (msk : List Bool)
+    (masked : Bool) (ng ml : Int) (hlen : codes.length = vals.length) (hlent : codes.length = times.length)
+    (htimes : ∀ t ∈ times, t ≠ minInt64) (i : Nat) (hi : i < codes.length) :
+    (Generated.Loops.ema_grouped_timed k ln2 expf codes.length (arrOf codes 0) vals.length (arrOf vals .nan) times.length
+      (arrOf times 0) halflife ng masked ml (arrOf msk true)).1 (i : Int) =
+      LoopBridge.emaCell (emaGroupedTimed decay (LoopBridge.emaTRows codes vals times masked msk)) i :=
+  (LoopBridge.ema_grouped_timed_eq k ln2 expf halflife decay hdec hdec0 codes vals times msk masked ng ml hlen hlent
+    htimes).2 i hi
+
+/-- non-vacuity: alpha = 1/2, two interleaved groups, a NaN, a null key, a masked row -/
+example :
+    let r := Generated.Loops.ema_grouped .f 6 (arrOf [0, 1, -1, 0, 0, 1] 0) 6
+      (arrOf [.q 1, .q 4, .q 9, .nan, .q 3, .q 8] .nan) (.q (1 / 2)) 2 true 6
+      (arrOf [true, true, true, true, true, false] true)
+    ((List.range 6).map fun (j : Nat) => r.1 (j : Int)) = [.q 1, .q 4, .nan, .q 1, .q (13 / 5), .q 4] := by decide +kernel
 
 end GV.C10
